@@ -89,6 +89,54 @@ class RngStub:
         return a + self.inp.choose(b - a + 1, "randint")
 
 
+import random as _pyrandom
+
+
+class PyRandomStub(_pyrandom.Random):
+    """random.Random-typed stub (networkx accepts random.Random instances as `seed`): continuous draws are fresh inputs,
+    discrete draws are explored exhaustively."""
+
+    def __init__(self, inp, prefix=""):
+        super().__init__(0)
+        self._stub = RngStub(inp, prefix)
+
+    @property
+    def k(self):
+        return self._stub.k
+
+    def random(self):
+        return self._stub.random()
+
+    def uniform(self, a, b):
+        return self._stub.uniform(a, b)
+
+    def randrange(self, *a):
+        return self._stub.randrange(*a)
+
+    def randint(self, a, b):
+        return self._stub.randint(a, b)
+
+    def choice(self, seq):
+        seq = list(seq)
+        return seq[self._stub.inp.choose(len(seq), "choice")]
+
+    def shuffle(self, x):
+        self._stub.shuffle(x)
+
+    def sample(self, population, k, **kw):
+        pool = list(population)
+        out = []
+        for _ in range(k):
+            out.append(pool.pop(self._stub.inp.choose(len(pool), "sample")))
+        return out
+
+    def getrandbits(self, k):
+        return self._stub.randrange(0, 2 ** k)
+
+    def seed(self, *a, **k):
+        pass
+
+
 def patch_unbound_generator_defaults(pk):
     """`additive(..., weights_dist_fn=np.random.Generator.random)` calls an unbound C method on the generator
     object, which cannot be a stub.  Replace that default (in memory) by the equivalent bound call g.random()."""
